@@ -101,7 +101,7 @@ func (m *UpstreamClusterController) syncUpstreamCluster(obj interface{}) (syncqu
 		return syncqueue.Result{}, nil
 	}
 
-	_, err := m.lister.Get(cluster.Name)
+	latest, err := m.lister.Get(cluster.Name)
 	clusterName := strings.ToLower(cluster.Name)
 	if errors.IsNotFound(err) {
 		// clean cluster
@@ -111,6 +111,9 @@ func (m *UpstreamClusterController) syncUpstreamCluster(obj interface{}) (syncqu
 	if err != nil {
 		return syncqueue.Result{}, err
 	}
+	// The queue item is the object of the event. A requeued or re-delivered item
+	// can be a superseded version: always apply the latest version the lister knows.
+	cluster = latest
 
 	if err := m.checkUpstreamServerNameConflict(cluster); err != nil {
 		klog.Errorf("ckeck cluster %v failed: %v", cluster.Name, err)
